@@ -151,6 +151,8 @@ def getitem(ip, o, idx):
                 raise PyRaise(ExcVal('IndexError', ('index out of range',)))
             ip.instantiate_universals(o, ipx)
             return o.fn(ipx)
+        if isinstance(idx, Seq) and o.kind in ('ndarray', 'range') and _is_bool_seq(idx):
+            return mask_filter(ip, o, idx)
         if isinstance(idx, (list, Seq)) and o.kind in ('ndarray', 'range'):
             ids = as_seq(idx)
             nn = concrete_int(ids.length)
@@ -201,6 +203,56 @@ def _idx_flat(idx):
     return idx
 
 
+def _is_bool_seq(s):
+    try:
+        probe = s.fn(z3.Int('_probe'))
+    except Exception:
+        return False
+    return isinstance(probe, bool) or (is_z3(probe) and z3.is_bool(probe))
+
+
+def mask_filter(ip, o, mask):
+    """ASSUMED contract of boolean-mask indexing a[mask] (1-d): the result lists, in order,
+    the elements whose mask entry is True.  Modelled by a strictly increasing position map
+    pos: [0,c) -> [0,n) onto the True positions and its inverse rank; the same mask OBJECT
+    always yields the same maps (so a[m] and b[m] select the same positions).
+    Universal facts are instantiated on demand (ip.filter_facts)."""
+    key = id(mask)
+    rec = ip.ghost.setdefault('filters', {}).get(key)
+    src = o.copy()
+    if rec is None:
+        k = len(ip.ghost['filters'])
+        pos = z3.Function('mask_pos_%d' % k, z3.IntSort(), z3.IntSort())
+        rank = z3.Function('mask_rank_%d' % k, z3.IntSort(), z3.IntSort())
+        c = fresh_int('mask_count')
+        msnap = mask.copy()
+        n = msnap.length
+        ip.add_pc(z3.And(c >= 0, c <= n))
+        rec = {'pos': pos, 'rank': rank, 'count': c, 'mask': msnap, 'n': n, 'keepalive': mask}
+
+        def facts_m(m):      # for a result index m
+            return z3.Implies(z3.And(m >= 0, m < c),
+                              z3.And(pos(m) >= 0, pos(m) < n, to_z3(msnap.fn(pos(m))), rank(pos(m)) == m,
+                                     z3.Implies(m + 1 < c, pos(m) < pos(m + 1)),
+                                     z3.Implies(m >= 1, pos(m - 1) < pos(m))))
+
+        def facts_j(j):      # for a source index j
+            return z3.Implies(z3.And(j >= 0, j < n, to_z3(msnap.fn(j))),
+                              z3.And(rank(j) >= 0, rank(j) < c, pos(rank(j)) == j))
+        rec['facts_m'], rec['facts_j'] = facts_m, facts_j
+        ip.ghost['filters'][key] = rec
+        # boundary instances
+        for m in (z3.IntVal(0), c - 1):
+            ip.add_pc(facts_m(m))
+        # the count is zero iff no entry is True (instances at the boundaries only; the
+        # general fact is available through facts_j)
+    pos, c = rec['pos'], rec['count']
+    res = Seq(c, lambda m: src.fn(pos(m)), 'ndarray')
+    rec.setdefault('results', []).append(res)
+    ip.add_universal(res, lambda m: rec['facts_m'](m), c)
+    return res
+
+
 def fancy_index(ip, o, ids):
     """ndarray[int-list]: element-wise with numpy negative-index semantics; IndexError
     if any index is out of range."""
@@ -208,6 +260,7 @@ def fancy_index(ip, o, ids):
     j = fresh_int('fj')
     if ip.decide(ids.length > 0, 'fancy-nonempty'):
         # is there an out-of-range element?
+        ip.instantiate_universals(ids, j)
         ipx, ok = norm_index(ids.fn(j), n)
         bad = z3.And(j >= 0, j < ids.length, z3.Not(ok))
         if ip.may_exist(bad, 'fancy-oob'):
